@@ -13,10 +13,12 @@ import multiprocessing as mp
 import z3
 
 
-def build_query(pc, goal, probes=None):
+def build_query(pc, goal, probes=None, drop_quantified=False):
     """-> smt2 text; probes: list of (name, z3 expr) equated to fresh named constants"""
     s = z3.Solver()
     for f in pc:
+        if drop_quantified and z3.is_quantifier(f):
+            continue
         s.add(f)
     if goal is not None:
         s.add(z3.Not(goal))
@@ -118,10 +120,25 @@ def _run_cvc5(smt2, timeout_ms):
 
 
 def solve_one(job):
-    """job = (idx, smt2, names, expect, z3_ms, cvc5_ms, uses_strings)"""
-    idx, smt2, names, z3_ms, cvc5_ms = job
-    res, model, t, reason = _run_z3(smt2, names, z3_ms)
-    out = {'idx': idx, 'z3': res, 'z3_s': round(t, 3), 'model': model, 'reason': reason, 'cvc5': None, 'cvc5_s': 0.0}
+    """job = (idx, smt2, names, z3_ms, cvc5_ms[, smt2_without_quantified_axioms])"""
+    idx, smt2, names, z3_ms, cvc5_ms = job[:5]
+    qfree = job[5] if len(job) > 5 else None
+    if qfree is not None:
+        # lemma axioms (quantified) dropped: unsat here is unsat of the full query
+        r0, m0, t0, reason0 = _run_z3(qfree, names, z3_ms)
+        if r0 == 'unsat':
+            return {'idx': idx, 'z3': 'unsat', 'z3_s': round(t0, 3), 'model': None, 'reason': '', 'cvc5': None, 'cvc5_s': 0.0}
+        res, model, t, reason = _run_z3(smt2, names, z3_ms)
+        out = {'idx': idx, 'z3': res, 'z3_s': round(t + t0, 3), 'model': model, 'reason': reason, 'cvc5': None, 'cvc5_s': 0.0}
+        if res == 'unknown' and r0 == 'sat':
+            # candidate counterexample found without the lemma axioms; only a native replay can confirm it
+            out['z3'] = 'sat'
+            out['model'] = m0
+            out['weak'] = True
+            return out
+    else:
+        res, model, t, reason = _run_z3(smt2, names, z3_ms)
+        out = {'idx': idx, 'z3': res, 'z3_s': round(t, 3), 'model': model, 'reason': reason, 'cvc5': None, 'cvc5_s': 0.0}
     if res in ('unknown', 'error') and cvc5_ms:
         r2, t2, msg = _run_cvc5(smt2, cvc5_ms)
         out['cvc5'] = r2
